@@ -128,22 +128,49 @@ func TestVerifC28_Replicate(t *testing.T) {
 		if v, _, _ := visibleInvariant(origin.Objects()); v != "" {
 			rt.Fatalf("HARNESS: origin bucket violates the invariant: %v", v)
 		}
-		// target: empty, or the first block is already there (replicated by an earlier run).
+		// target: empty, or the first block is already there (replicated by an earlier run), or the
+		// first block was there, got marked for deletion and its block.Delete was interrupted after
+		// k removals (the order of the removals depends on the listing order of the bucket).
 		initial := map[string][]byte{}
-		pre := rapid.Bool().Draw(rt, "firstBlockAlreadyInTarget")
-		if pre {
+		lex := rapid.Bool().Draw(rt, "lexicographicListing")
+		pre := rapid.SampledFrom([]string{"empty", "present", "present", "deletion-interrupted", "deletion-interrupted"}).Draw(rt, "firstBlockInTarget")
+		started := map[string]bool{}
+		if pre != "empty" {
 			for name, o := range origin.Objects() {
 				if strings.HasPrefix(name, blocks[0].ID+"/") && !strings.HasSuffix(name, "deletion-mark.json") {
 					initial[name] = o
 				}
 			}
 		}
+		if pre == "deletion-interrupted" {
+			id := blocks[0].ID
+			initial[id+"/deletion-mark.json"] = []byte(`{"id":"` + id + `","version":1,"deletion_time":1}`)
+			k := rapid.IntRange(1, len(initial)-1).Draw(rt, "removalsBeforeTheCrash")
+			ob := newOpBucket(copyBucket(initial))
+			ob.lexIter = lex
+			ob.freezeMut = k
+			run := runCrashable(ob, func(ctx context.Context) error {
+				return thanosblock.Delete(ctx, c28Logger, ob, blocks[0].Spec.ULID)
+			})
+			if !run.Crashed {
+				rt.Fatalf("HARNESS: block.Delete returned (err=%v) before removal %d", run.Err, k)
+			}
+			initial = map[string][]byte{}
+			for name, o := range ob.inner.Objects() {
+				initial[name] = o
+			}
+			run.finish()
+			started[id] = true
+			pre = fmt.Sprintf("deletion-interrupted@%d", k)
+		}
 		matcher := labels.MustNewMatcher(labels.MatchEqual, "ext", "1")
 		filter := NewBlockFilter(c28Logger, labels.Selector{matcher}, []compact.ResolutionLevel{compact.ResolutionLevelRaw}, []int{1}, nil).Filter
 		sc := vScenario{
-			Name:    fmt.Sprintf("replicate [%s] noise=%v ignoreMarked=%v firstInTarget=%v", strings.Join(names, ", "), noise, ignoreMarked, pre),
+			Name:    fmt.Sprintf("replicate [%s] noise=%v ignoreMarked=%v firstInTarget=%v lex=%v", strings.Join(names, ", "), noise, ignoreMarked, pre, lex),
 			Segs:    segs,
+			Lex:     lex,
 			Initial: initial,
+			Started: started,
 			Run: func(ctx context.Context, bkt objstore.Bucket, _ any) error {
 				fetcher, err := newMetaFetcher(c28Logger, objstore.WithNoopInstr(origin), nil, minT, maxT, 4, ignoreMarked)
 				if err != nil {
